@@ -22,6 +22,7 @@ RULE = (
     "a value with a special character."
 )
 RULE += (" Seeds and random values include long placeholder names (33-300 characters), values of 100+ characters and lists of 23-40 values.")
+RULE += (" Field names spelled like every modifier identifier are swept with chains of length <= 1.")
 ASSUMPTIONS = [
     "vf/ref/modifiers.py is the modifier table of the Sigma specification as documented by pySigma",
     "ambiguous adjacencies are excluded and counted: backslash run before '%', backslash in a "
@@ -192,6 +193,13 @@ def run(ctx) -> None:
                     i += 1
                     if i % ctx.nshards == ctx.shard:
                         ctx.do({"field": field, "chain": list(chain), "value": value})
+    # field names that are spelled like modifier identifiers (every modifier name, chains of length <= 1)
+    for fname in MODS:
+        for chain in [()] + [(m,) for m in MODS]:
+            for value in ("a*b", "a\\*", "%x%", "-a", 5, ["a", "b*"]):
+                i += 1
+                if i % ctx.nshards == ctx.shard:
+                    ctx.do({"field": fname, "chain": list(chain), "value": value})
     ctx.extra["exhaustive_part"] = f"all chains of length <= {maxlen} over {len(MODS)} modifier names x {len(SEEDS)} seed values"
     ctx.hyp(random_cases(), 3000 if ctx.tier == "quick" else 40000)
 
@@ -214,5 +222,5 @@ def random_cases(draw):
     scalar = st.one_of(sval, sval, st.sampled_from(SEEDS[:36]), st.integers(-3, 70), st.floats(allow_nan=True, allow_infinity=True, width=32),
                        st.booleans(), st.none())
     value = draw(st.one_of(scalar, scalar, st.lists(scalar, max_size=3)))
-    field = draw(st.sampled_from(["f", "f", "f", None]))
+    field = draw(st.sampled_from(["f", "f", "f", None, "re", "all", "expand", "i", "contains", "Field Name", "1"]))
     return {"field": field, "chain": chain, "value": value}
